@@ -64,6 +64,9 @@ def run(tier):
                         {"kind": "lattice_trace", "spec": t["meta"], "event": l, "clause": clause, "record": t["c"], "ev": t["ev"][l - 1],
                          "message": f"AnalyzerTrace rejected event {l} {t['ev'][l-1]} of {t['meta']}: {clause}"})
     V.sample({"lattice_trace": {"c": trs[0]["c"], "ev": trs[0]["ev"][:2]}})
+    # real schedulers x Kaiser windows: stored window sums for two side-lobe levels analysed in one process
+    from . import _result_common as R
+    R.run_traces(V, PID, tier, sd, lambda rnd: [("winsum", rnd.choice([60, 90]), rnd.choice([120, 200]), rnd.choice([60, 150]))], n_quick=8, n_thorough=40)
     V.assumptions += ["plans and windows are injected through the public scheduler=/win= callables; frequencies are the lattice angles (w = 0, pi/3, pi/2, 2pi/3, pi) so that the reference estimator is exact",
                       "Kaiser construction and real schedulers x real windows are bound by shims in the C05 thorough tier / C12"]
     return V.finish(rule="scenarios = terminal states of Analyzer.tla (plan templates x start-vector variants x frequency rotations x records x windows x orders x modes x bands) + seeded random single-bin requests; non-trivial = scenario without plan error")
@@ -76,6 +79,9 @@ def replay(payload):
         for p in probs:
             print("MISMATCH", p)
         return 1 if probs else 0
+    if payload["kind"] == "result_trace":
+        from . import _result_common as R
+        return R.replay_trace(payload)
     t = ac.record_lattice(payload["spec"])
     vd, _ = traces.validate("AnalyzerTrace", f"{PID}_replay", [t])
     print(vd)
